@@ -266,6 +266,10 @@ def install_vars(reg, src):
         natural order (A4: sorted returns the key-ordered permutation; the natural order is established only when the
         key is optyx.problem._natural_sort_key itself)."""
         from pyvc.values import FuncRef
+        if isinstance(it, SSeq) and it.tag and it.tag[0] == "field" and it.tag[1] == "_variables":
+            # sorted(vector._variables): the elements of a vector are pairwise distinct (A6), so the sorted list is the
+            # sorted list of the set of its variables
+            it = set_of_field(ip, it.tag[2], "_variables", it)
         if not isinstance(it, SSet):
             raise Unsupported("sorted() of something that is not a set of Variables")
         base = sym.fresh("sortedlist", sym.Ref)
